@@ -36,6 +36,9 @@ func runC03(p *Program, r *Report) {
 	c03full(p, r, "C03.full")
 	c03taint(p, r, "C03.taint")
 	c01dict(p, r, "C03.flate")
+	c14side(p, r, "C03.side")
+	c14sideUse(p, r, "C03.side.use")
+	c04state(p, r, "C03.state")
 	// frames that arrive in the same packet as the handshake (server side)
 	sub := newReport(r.Prop, r.Tier)
 	c11gate(p, sub, "C03.handoff")
